@@ -30,10 +30,10 @@ func (c14) Runs(tier string) int {
 }
 func (c14) Describe() core.Description {
 	return core.Description{
-		Level: "exploration",
-		Rule:  "per run: drawn parameters (LogN 4-7, 1-4 Q primes of unequal size, 0-2 P primes), N in 1..8 parties each with its own CRS reader and protocol objects (constructed or ShallowCopy), 1-3 aggregators in a tree, 2-5 concurrent protocol instances drawn from {collective public key, relinearisation key (two rounds), Galois key for a drawn element, generic evaluation key s->s'} each with drawn (LevelQ, LevelP, BaseTwoDecomposition); every share travels over the simulated transport (delay/reordering, duplication, by reference or serialized through a chunked stream), is aggregated in arrival order in a drawn aliasing form, and shares of evk/Galois instances are additionally mis-routed into other instances. Non-trivial = at least one transport fault fired and at least one key oracle evaluated; distinct = distinct choice traces",
-		Real:  []string{"multiparty.PublicKeyGenProtocol / RelinearizationKeyGenProtocol / GaloisKeyGenProtocol / EvaluationKeyGenProtocol (SampleCRP, GenShare*, AggregateShares, Gen*Key, ShallowCopy)", "share serialization", "sampling.KeyedPRNG as CRS", "rlwe.KeyGenerator, Encryptor, Evaluator (ApplyEvaluationKey, Automorphism, Relinearize) using the collective keys", "ring/ringqp arithmetic as oracle substrate"},
-		Stub:  []string{"network (simnet)", "aggregator bookkeeping (who is missing, duplicate suppression, mis-routed share handling)", "orchestrator announcing the instances", "entropy source (deterministic crypto/rand.Reader)"},
+		Level:  "exploration",
+		Rule:   "per run: drawn parameters (LogN 4-7, 1-4 Q primes of unequal size, 0-2 P primes), N in 1..8 parties each with its own CRS reader and protocol objects (constructed or ShallowCopy), 1-3 aggregators in a tree, 2-5 concurrent protocol instances drawn from {collective public key, relinearisation key (two rounds), Galois key for a drawn element, generic evaluation key s->s'} each with drawn (LevelQ, LevelP, BaseTwoDecomposition); every share travels over the simulated transport (delay/reordering, duplication, by reference or serialized through a chunked stream), is aggregated in arrival order in a drawn aliasing form, and shares of evk/Galois instances are additionally mis-routed into other instances. Non-trivial = at least one transport fault fired and at least one key oracle evaluated; distinct = distinct choice traces",
+		Real:   []string{"multiparty.PublicKeyGenProtocol / RelinearizationKeyGenProtocol / GaloisKeyGenProtocol / EvaluationKeyGenProtocol (SampleCRP, GenShare*, AggregateShares, Gen*Key, ShallowCopy)", "share serialization", "sampling.KeyedPRNG as CRS", "rlwe.KeyGenerator, Encryptor, Evaluator (ApplyEvaluationKey, Automorphism, Relinearize) using the collective keys", "ring/ringqp arithmetic as oracle substrate"},
+		Stub:   []string{"network (simnet)", "aggregator bookkeeping (who is missing, duplicate suppression, mis-routed share handling)", "orchestrator announcing the instances", "entropy source (deterministic crypto/rand.Reader)"},
 		Assume: []string{"all parties read the CRS with the same sequence of SampleCRP calls (the announced instance order)", "relinearisation-key noise is bounded by the protocol's own hard bound 2*n*N^2*B + N*B (it is inherently not N times the single-party bound)", "the functional key-switch oracle is evaluated only when its hard noise bound is below Q/4 at the ciphertext level (otherwise counted as budget-skipped)", "mis-routing is only injected into protocols whose AggregateShares can return an error (Galois, generic evaluation key)"},
 	}
 }
@@ -473,7 +473,10 @@ func (a *c14Agg) complete(net *simnet.Net, in *c14Inst, round int) {
 
 func (c14) Run(ctx *core.RunCtx) {
 	ch := ctx.Ch
-	params, spec := drawParams(ctx, catalog.SpecOpts{MinLogN: 4, MaxLogN: 7, MinQ: 1, MaxQ: 4, MinP: 0, MaxP: 2, MinBits: 25, MaxBits: 60})
+	params, spec := drawParams(ctx, catalog.SpecOpts{MinLogN: 4, MaxLogN: 7, MinQ: 1, MaxQ: 4, MinP: 0, MaxP: 2, MinBits: 25, MaxBits: 60, ConjInvOneIn: 4})
+	if params.RingType() == ring.ConjugateInvariant {
+		ctx.Count("probe.conjugate-invariant-ring", 1)
+	}
 	N := 1 + ch.Draw("N", 8)
 	r := &c14Run{ctx: ctx, params: params, N: N}
 	r.serial = ch.Draw("serialize-mode", 3)
@@ -498,7 +501,12 @@ func (c14) Run(ctx *core.RunCtx) {
 			case 0:
 				in.galEl = params.GaloisElement(1 + ch.Draw("rot", 2*params.N()))
 			case 1:
-				in.galEl = params.GaloisElementOrderTwoOrthogonalSubgroup()
+				if params.RingType() == ring.ConjugateInvariant {
+					// the conjugation is not an automorphism of this ring (documented: the library panics)
+					in.galEl = params.GaloisElement(1 + ch.Draw("rot", 2*params.N()))
+				} else {
+					in.galEl = params.GaloisElementOrderTwoOrthogonalSubgroup()
+				}
 			default:
 				in.galEl = params.GaloisElement(-1 - ch.Draw("rot-neg", 8))
 			}
@@ -654,7 +662,9 @@ func (c14) Run(ctx *core.RunCtx) {
 			for i := 1; i < N; i++ {
 				res, err := r.aggregate(ref, in, rd, acc, in.pristine[rd][i], 2)
 				if err != nil {
-					ctx.Harness("reference aggregation failed: %v", err)
+					// genuine shares of one instance, a new protocol object, new outputs: this must work
+					ctx.Fail("aggregate", c14KindNames[in.kind]+".AggregateShares|error", "aggregating the genuine shares of %s in index order into new outputs failed: %v", in, err)
+					return
 				}
 				acc = res
 			}
